@@ -212,21 +212,28 @@ Proof.
   inversion E; subst. exact Hl.
 Qed.
 
+Lemma Pw_qr_main : forall o l endp st, nodes_ok l -> Pw st -> Pw (snd (qr_main o l endp st)).
+Proof.
+  intros o l endp st Hl H. unfold qr_main.
+  destruct (if convert_host o then host_late_scan l endp false None else None) as [[rest wp]|];
+    [cbn [snd]; auto with pw | apply Pw_qr_loop; [exact Hl | exact H]].
+Qed.
+
 Lemma Pw_qrule : forall o l endp st, nodes_ok l -> Pw st -> Pw (snd (qrule o l endp st)).
 Proof.
   intros o l endp st Hl0 H. unfold qrule.
   pose proof (nodes_ok_skip_ws _ Hl0) as Hl.
-  destruct (convert_host o); [|apply Pw_qr_loop; [exact Hl | exact H]].
+  destruct (convert_host o); [|apply Pw_qr_main; [exact Hl | exact H]].
   unfold host_try_parse.
-  destruct (skip_ws l) as [|x r]; [apply Pw_qr_loop; [exact Hl | exact H]|].
-  destruct x as [t p|open p body e c]; [|apply Pw_qr_loop; [exact Hl | exact H]].
-  destruct t; try (apply Pw_qr_loop; [exact Hl | exact H]).
+  destruct (skip_ws l) as [|x r]; [apply Pw_qr_main; [exact Hl | exact H]|].
+  destruct x as [t p|open p body e c]; [|apply Pw_qr_main; [exact Hl | exact H]].
+  destruct t; try (apply Pw_qr_main; [exact Hl | exact H]).
   destruct (nodes_ok_cons _ _ Hl) as [_ Hr].
   pose proof (nodes_ok_skip_comments _ Hr) as Hr1.
   destruct (skip_comments r) as [|y r2]; [exact H|].
   destruct (nodes_ok_cons _ _ Hr1) as [_ Hr2].
   match goal with |- Pw (snd match match ?s with _ => _ end with _ => _ end) => destruct s as [inv|] end;
-    [|apply Pw_qr_loop; [exact Hl | exact H]].
+    [|apply Pw_qr_main; [exact Hl | exact H]].
   destruct (host_scan r2 endp inv) as [[[nd rest] [wp|]]|] eqn:Es; cbn [snd]; try exact H.
   - destruct nd; auto with pw.
   - pose proof (host_scan_ok _ _ _ _ _ _ Hr2 Es) as Hn.
@@ -247,13 +254,17 @@ Proof.
   destruct (nodes_ok_cons _ _ Hl) as [Hx Hrl].
   destruct (is_ws_or_comment (node_tok x)); [apply IH; assumption|].
   destruct x as [t p|open p body e c].
-  - destruct t; try exact H; (split; [assumption | split; assumption]).
+  - cbn [node_pos] in Hx.
+    destruct t; try exact (Pw_warn _ _ _ H); try (split; [assumption | split; assumption]).
+    destruct (match closes with [] => str_eqb_ci s s_layer | _ :: _ => false end);
+      [|split; [assumption | split; assumption]].
+    apply IH; [exact Hrl | constructor; [exact Hx | exact Hc] | auto with pw].
   - destruct (nodes_ok_block _ _ _ _ _ _ Hl) as [He Hb]. cbn [node_pos] in Hx.
-    destruct open; try exact H; try (split; [assumption | split; assumption]).
-    destruct (str_eqb s s_layer).
+    destruct open; try exact (Pw_warn _ _ _ H); try (split; [assumption | split; assumption]).
+    destruct (str_eqb_ci s s_layer).
     { apply IH; [exact Hrl | constructor; [exact Hx | exact Hc] |].
       apply Pw_tok_at; [exact Hx|]. apply Pw_rpx_body; [exact Hb | auto with pw]. }
-    destruct (str_eqb s s_supports).
+    destruct (str_eqb_ci s s_supports).
     { apply IH; [exact Hrl | constructor; [exact Hx | exact Hc] |].
       apply Pw_tok_at; [exact Hx|]. apply Pw_tok_at; [exact Hx|].
       apply Pw_cn_body; [exact Hb | auto with pw]. }
@@ -355,7 +366,7 @@ Proof.
   destruct l as [|x r]; [exact I|]. destruct x as [t p|? ? ? ? ?]; [|exact I].
   destruct t; try exact I.
   destruct (nodes_ok_cons _ _ Hl) as [Hx Hr]. cbn [node_pos] in Hx.
-  destruct (if str_eqb s s_import then import_sign o else None) as [sign|].
+  destruct (if str_eqb_ci s s_import then import_sign o else None) as [sign|].
   - set (st0 := if at_start then st else warn st W_IMPORT_POS (cur_pos r endp)).
     assert (H0 : Pw st0) by (unfold st0; destruct at_start; auto with pw).
     pose proof (Pw_import_try o sign (cur_pos r endp) r endp st0 Hr He (cur_pos_ok _ _ Hr He) H0) as [Hi Hrest].
@@ -384,21 +395,41 @@ Proof.
   intros. eapply nodes_ok_tail. eapply host_scan_ok; eassumption.
 Qed.
 
+Lemma host_late_scan_rest_ok : forall l endp ac found rest wp,
+  nodes_ok l -> host_late_scan l endp ac found = Some (rest, wp) -> nodes_ok rest.
+Proof.
+  induction l as [|x r IH]; intros endp ac found rest wp Hl E; [discriminate|].
+  cbn [host_late_scan] in E. destruct (nodes_ok_cons _ _ Hl) as [_ Hr].
+  destruct (is_comment (node_tok x)); [eapply IH; eassumption|].
+  destruct x as [t p|open p b e c].
+  - destruct t; eapply IH; eassumption.
+  - destruct open; try (eapply IH; eassumption).
+    destruct found; [|discriminate]. inversion E; subst. exact Hr.
+Qed.
+
+Lemma qr_main_rest_ok : forall o l endp st, nodes_ok l -> nodes_ok (fst (qr_main o l endp st)).
+Proof.
+  intros o l endp st Hl. unfold qr_main.
+  destruct (if convert_host o then host_late_scan l endp false None else None) as [[rest wp]|] eqn:E;
+    [|apply qr_loop_rest_ok; exact Hl].
+  cbn [fst]. destruct (convert_host o); [|discriminate]. eapply host_late_scan_rest_ok; eassumption.
+Qed.
+
 Lemma qrule_rest_ok : forall o l endp st, nodes_ok l -> nodes_ok (fst (qrule o l endp st)).
 Proof.
   intros o l endp st Hl0. unfold qrule.
   pose proof (nodes_ok_skip_ws _ Hl0) as Hl.
-  destruct (convert_host o); [|apply qr_loop_rest_ok; exact Hl].
+  destruct (convert_host o); [|apply qr_main_rest_ok; exact Hl].
   unfold host_try_parse.
-  destruct (skip_ws l) as [|x r]; [apply qr_loop_rest_ok; exact Hl|].
-  destruct x as [t p|open p body e c]; [|apply qr_loop_rest_ok; exact Hl].
-  destruct t; try (apply qr_loop_rest_ok; exact Hl).
+  destruct (skip_ws l) as [|x r]; [apply qr_main_rest_ok; exact Hl|].
+  destruct x as [t p|open p body e c]; [|apply qr_main_rest_ok; exact Hl].
+  destruct t; try (apply qr_main_rest_ok; exact Hl).
   destruct (nodes_ok_cons _ _ Hl) as [_ Hr].
   pose proof (nodes_ok_skip_comments _ Hr) as Hr1.
   destruct (skip_comments r) as [|y r2]; [intros q []|].
   destruct (nodes_ok_cons _ _ Hr1) as [_ Hr2].
   match goal with |- nodes_ok (fst match match ?s with _ => _ end with _ => _ end) => destruct s as [inv|] end;
-    [|apply qr_loop_rest_ok; exact Hl].
+    [|apply qr_main_rest_ok; exact Hl].
   destruct (host_scan r2 endp inv) as [[[nd rest] [wp|]]|] eqn:Es; cbn [fst]; try (intros q []).
   - destruct nd; cbn [fst]; eapply host_scan_rest_ok; eassumption.
   - destruct nd; cbn [fst]; eapply host_scan_rest_ok; eassumption.
@@ -410,9 +441,9 @@ Proof.
   induction fuel as [|f IH]; intros o l endp at_start st Hl0 He H; [exact H|].
   cbn [rules]. pose proof (nodes_ok_skip_ws _ Hl0) as Hl.
   destruct (skip_ws l) as [|x r] eqn:E; [exact H|].
-  pose proof (Pw_at_rule o (fun body be s => rules f o body be true s) (x :: r) endp at_start st
-                (fun body be s Hb Hbe Hs => IH o body be true s Hb Hbe Hs) Hl He H) as Ha.
-  destruct (at_rule o (fun body be s => rules f o body be true s) (x :: r) endp at_start st) as [[rest s1]|].
+  pose proof (Pw_at_rule o (fun body be s => rules f o body be false s) (x :: r) endp at_start st
+                (fun body be s Hb Hbe Hs => IH o body be false s Hb Hbe Hs) Hl He H) as Ha.
+  destruct (at_rule o (fun body be s => rules f o body be false s) (x :: r) endp at_start st) as [[rest s1]|].
   - destruct Ha. apply IH; assumption.
   - pose proof (Pw_qrule o (x :: r) endp st Hl H) as Hq.
     pose proof (qrule_rest_ok o (x :: r) endp st Hl) as Hrest.
